@@ -3,6 +3,7 @@ package rules
 import (
 	"fmt"
 	"go/constant"
+	"go/token"
 	"go/types"
 	"strings"
 
@@ -236,7 +237,7 @@ func ruleC09(c *Ctx) []*report.Result {
 						}
 					}
 					if w.payload != nil && rawPrimitive {
-						if cv := lossyConvOnPath(fl.res(w.payload)); cv != nil {
+						if cv := lossyConvOnPath(fl.res(w.payload)); cv != nil && !asciiGuarded(cv) {
 							r.Fail(construct+" / payload written in its own representation", c.P.Pos(cv.Pos()), "the payload is converted from "+cv.X.Type().String()+" to "+cv.Type().String()+" before the write: a byte written as a rune is re-encoded (two bytes for values >= 0x80), a string sent through runes loses invalid bytes", nil, "")
 						}
 					}
@@ -439,4 +440,43 @@ func modeSetByArgs(ci ssa.CallInstruction, args []ssa.Value) (int64, bool) {
 		}
 	}
 	return found, n == 1
+}
+
+// asciiGuarded: a narrowing of an integer (a rune) to a byte that happens only
+// where the value is known to be below utf8.RuneSelf — an ASCII rune is its
+// own one-byte encoding: the conversion's block is reached through the true
+// edge of `x < K` (K <= 128) on the same value, possibly converted.
+func asciiGuarded(cv *ssa.Convert) bool {
+	tb, ok := cv.Type().Underlying().(*types.Basic)
+	if !ok || tb.Kind() != types.Uint8 {
+		return false
+	}
+	root := stripConvAll(cv.X)
+	fn := cv.Parent()
+	for _, b := range fn.Blocks {
+		iff, ok := b.Instrs[len(b.Instrs)-1].(*ssa.If)
+		if !ok {
+			continue
+		}
+		bo, ok := iff.Cond.(*ssa.BinOp)
+		if !ok || (bo.Op != token.LSS && bo.Op != token.LEQ) {
+			continue
+		}
+		k, ok := intConst(bo.Y)
+		if !ok || k > 128 || (bo.Op == token.LEQ && k > 127) {
+			continue
+		}
+		if stripConvAll(bo.X) != root {
+			continue
+		}
+		// an unsigned view of the value, or the value itself with a lower bound elsewhere: require the unsigned view
+		if xb, ok := bo.X.Type().Underlying().(*types.Basic); !ok || xb.Info()&types.IsUnsigned == 0 {
+			continue
+		}
+		t := b.Succs[0]
+		if len(t.Preds) == 1 && (t == cv.Block() || t.Dominates(cv.Block())) {
+			return true
+		}
+	}
+	return false
 }
